@@ -2,7 +2,7 @@
 
 
 def model_check(ctx):
-    for cfg, expect in (('CL_idle1', None), ('CL_idle3', None), ('CL_lit3', None), ('CL_closed2', None),
+    for cfg, expect in (('CL_idle1', None), ('CL_idle3', None), ('CL_lit3', None), ('CL_closed2', None), ('CL_mixed2', None),
                         ('W_D7', 'NoStranded'), ('W_D7b', 'StartSync'), ('W_ReCheck', 'OneLockPerLoop'), ('W_ReCheck2', 'NoAlreadyRunning')):
         if expect:
             ctx.mc('crossloop', 'MC_CrossLoop', cfg + '.cfg', expect_violation=expect, timeout=300)
@@ -71,7 +71,7 @@ def _one(p):
     from harness import tlc
     mod = ('---- MODULE MC_CrossLoopConform ----\nEXTENDS CrossLoopConform\nCCallers == {%s}\n====\n'
            % ', '.join('"%s"' % c for c in p['callers']))
-    cfg = ('INIT CInit\nNEXT CNext\nCONSTANTS\n Callers <- CCallers\n Mode = "%s"\n ReCheck = TRUE\n D7Stutter = FALSE\n'
+    cfg = ('INIT CInit\nNEXT CNext\nCONSTANTS\n Callers <- CCallers\n Mode = "%s"\n ReCheck = TRUE\n OwnStart = TRUE\n D7Stutter = FALSE\n'
            'CONSTRAINT Reached\nCONSTRAINT NotYetAccepted\nCHECK_DEADLOCK FALSE\n' % p['mode'])
     work = tlc.scratch('clconf-')
     try:
